@@ -30,7 +30,7 @@ FS = "func_adl/ast/function_simplifier.py"
 AH = "func_adl/ast/ast_hash.py"
 
 # ---- C11 -------------------------------------------------------------------------------------
-mut("c11-qmd-nocopy", "C11", OS,
+mut("c16-qmd-nocopy", "C16", OS,
     "new_self = self.clone_with_new_ast(copy.copy(base_ast), self.item_type)",
     "new_self = self.clone_with_new_ast(base_ast, self.item_type)",
     "QMetaData attaches the dictionary to the un-copied node (parent sees the child's metadata)")
@@ -218,6 +218,22 @@ mut("c02-where-or", "C02", FS,
     "arg, ast.BoolOp(ast.And(), [lambda_call(arg, func_f), lambda_call(arg, func_g)])",
     "arg, ast.BoolOp(ast.And(), [lambda_call(arg, func_g), lambda_call(arg, func_f)])",
     "Where-of-Where evaluates the later filter first (a filter that raises on rejected items now raises)")
+mut("c02-shared-use", "C02", FS,
+    "        return copy.deepcopy(replacement)",
+    "        return replacement",
+    "every use of a substituted argument shares one ast object again (reverts the F7 repair)")
+mut("c02-no-scope", "C02", FS,
+    """        if any(a.arg in in_flight for a in node.args.args):
+            node = make_args_unique(node)
+""",
+    "",
+    "nested lambdas no longer renamed when they would capture a substituted name (half of the F9 repair)")
+mut("c02-no-shadow", "C02", FS,
+    """            for a in node.args.args:
+                self._arg_stack.define_name(a.arg, ast.Name(a.arg, ast.Load()))
+""",
+    "",
+    "a nested lambda's own parameters no longer hide the outer substitution (other half of the F9 repair)")
 # ---- C20 -------------------------------------------------------------------------------------
 mut("c20-attributes", "C20", AH,
     "b.extend(map(ord, ast.dump(a)))", "b.extend(map(ord, ast.dump(a, include_attributes=True)))",
